@@ -27,11 +27,15 @@ type Op struct {
 type Case struct {
 	Univ []int `json:"univ"`
 	Ops  []Op  `json:"ops"`
-	// Mode "last": the model is given the observation of every handle after
-	// the last operation only (the shorter histories are cases of their own).
-	// Mode "all": after every operation, the observation of the handle operated
-	// on (for Clone: the new handle) and of one other handle.
+	// Mode "all": the model is given, after every operation, the observation of
+	// the handle operated on (for Clone: the new handle) and of one other handle.
+	// Mode "last": the observation of every handle after the last operation only.
+	// Mode "fan": Ops is a prefix (not observed: the shorter histories are cases
+	// of their own); each operation of Fan is tried, on its own, after that
+	// prefix and every handle is observed after it, i.e. the case stands for the
+	// len(Fan) histories Ops+[Fan[i]].
 	Mode string `json:"mode"`
+	Fan  []Op   `json:"fan,omitempty"`
 }
 
 func init() {
@@ -239,7 +243,7 @@ func oracle(o obs, r *ref, univ []int) string {
 // ---- generation ----
 
 func run(c *core.Ctx) {
-	c.ShardSize = 1000
+	c.ShardSize = 200
 	u2 := []int{0, 1}
 	var alpha1 []Op
 	for _, k := range u2 {
@@ -251,16 +255,27 @@ func run(c *core.Ctx) {
 		alpha1 = append(alpha1, Op{Op: "RemoveForward", K: k}, Op{Op: "RemoveReverse", V: k})
 	}
 	alpha1 = append(alpha1, Op{Op: "Clear"})
-	// rec enumerates the histories extending prefix by at most depth operations
-	// (at most cloneBudget of them Clone); onlyCloned skips those without a Clone
-	var rec func(prefix []Op, handles, cloneBudget, depth int, onlyCloned bool, visit func([]Op))
-	rec = func(prefix []Op, handles, cloneBudget, depth int, onlyCloned bool, visit func([]Op)) {
-		if !onlyCloned || handles > 1 {
-			visit(prefix)
-		}
+	// rec enumerates the histories of at most depth further operations after prefix (at most cloneBudget of them
+	// Clone) as fan cases: one case per prefix with all its one-operation extensions. onlyCloned keeps only the
+	// histories that contain a Clone.
+	var rec func(prefix []Op, handles, cloneBudget, depth int, onlyCloned bool, visit func(prefix, fan []Op))
+	rec = func(prefix []Op, handles, cloneBudget, depth int, onlyCloned bool, visit func(prefix, fan []Op)) {
 		if depth == 0 {
 			return
 		}
+		var fan []Op
+		for h := 0; h < handles; h++ {
+			if !onlyCloned || handles > 1 {
+				for _, o := range alpha1 {
+					o.H = h
+					fan = append(fan, o)
+				}
+			}
+			if cloneBudget > 0 {
+				fan = append(fan, Op{Op: "Clone", H: h})
+			}
+		}
+		visit(prefix, fan)
 		for h := 0; h < handles; h++ {
 			for _, o := range alpha1 {
 				o.H = h
@@ -274,7 +289,7 @@ func run(c *core.Ctx) {
 	// 1. exhaustive: every history of length <= L over keys {0,1} x values {0,1} on the zero value
 	// 2. exhaustive with Clone: every history of length <= LC with exactly one Clone, acting on both handles
 	L, LC := c.N(5, 6, 5), c.N(4, 4, 4)
-	exhaustive := func(visit func([]Op)) {
+	exhaustive := func(visit func(prefix, fan []Op)) {
 		rec(nil, 1, 0, L, false, visit)
 		rec(nil, 1, 1, LC, true, visit)
 	}
@@ -294,13 +309,14 @@ func run(c *core.Ctx) {
 		}
 		return Case{Univ: univ, Ops: randomOps(c.Rng, univ, n, 6), Mode: "all"}
 	}
-	// the (long) random cases are spread evenly among the (short) exhaustive ones so that all shards cost the same
-	nExh := 0
-	exhaustive(func([]Op) { nExh++ })
+	// the (long) random cases are spread evenly among the exhaustive ones so that all shards cost about the same
+	nExh, nHist := 0, 1
+	exhaustive(func(_, fan []Op) { nExh++; nHist += len(fan) })
 	stride := nExh/(nRandom+nOdd) + 1
 	i, r := 0, 0
-	exhaustive(func(ops []Op) {
-		exec(c, Case{Univ: u2, Ops: append([]Op(nil), ops...), Mode: "last"})
+	exec(c, Case{Univ: u2, Mode: "last"}) // the empty history: a zero-value Bimap
+	exhaustive(func(prefix, fan []Op) {
+		exec(c, Case{Univ: u2, Ops: append([]Op(nil), prefix...), Mode: "fan", Fan: fan})
 		if i++; i%stride == 0 && r < nRandom+nOdd {
 			exec(c, random(r))
 			r++
@@ -310,9 +326,11 @@ func run(c *core.Ctx) {
 		exec(c, random(r))
 	}
 	c.Exhaustive = true
-	c.Note(fmt.Sprintf("exhaustive (%d histories): every history of length <= %d of Add/RemoveForward/RemoveReverse/Clear over keys {0,1} x values {0,1} on a zero-value Bimap; "+
+	c.Note(fmt.Sprintf("exhaustive (%d histories in %d fan cases = a prefix with all its one-operation extensions, every handle observed after the last operation): "+
+		"every history of length <= %d of Add/RemoveForward/RemoveReverse/Clear over keys {0,1} x values {0,1} on a zero-value Bimap; "+
 		"every history of length <= %d with one Clone at any position and the same operations on either handle; "+
-		"plus %d random histories of up to 60 operations over 0..3 x 0..3 with up to 5 clones and %d over unusual ints", nExh, L, LC, nRandom, nOdd))
+		"plus %d random histories of up to 60 operations over 0..3 x 0..3 with up to 5 clones and %d over unusual ints, observed after every operation",
+		nHist, nExh, L, LC, nRandom, nOdd))
 }
 
 func randomOps(r *core.Rand, univ []int, n, maxHandles int) []Op {
@@ -372,165 +390,213 @@ func perm(r *core.Rand, s []int) []int {
 
 // ---- execution of one case ----
 
-func exec(c *core.Ctx, cs Case) {
-	c.Begin(cs)
-	univ := cs.Univ
+// world: the real Bimaps of a history next to their references.
+type world struct {
+	c                 *core.Ctx
+	univ              []int
+	bs                []*maps.Bimap[int, int]
+	refs              []*ref
+	failed            *bool
+	quiet             bool // replay of an already counted and checked prefix
+	both, removedPair bool // the history so far has an Add evicting two pairs / a removal of an existing pair
+}
+
+func newWorld(c *core.Ctx, univ []int, failed *bool) *world {
 	var zero maps.Bimap[int, int]
-	bs := []*maps.Bimap[int, int]{&zero}
-	refs := []*ref{{}}
-	failed := false
-	fail := func(what, detail string) {
-		if !failed { // one failure per case: the first one is the informative one
-			c.Fail(what, detail)
-			failed = true
+	return &world{c: c, univ: univ, bs: []*maps.Bimap[int, int]{&zero}, refs: []*ref{{}}, failed: failed}
+}
+
+func (w *world) fail(what, detail string) {
+	if !*w.failed { // one failure per case: the first one is the informative one
+		w.c.Fail(what, detail)
+		*w.failed = true
+	}
+}
+
+func (w *world) count(stat string) {
+	if !w.quiet {
+		w.c.Count(stat)
+	}
+}
+
+func stopFor(i, h int) int { return 1 + (i*7+h*3)%4 }
+
+// checkAll: the direct oracle on every handle (an operation on one handle must
+// not change what any other handle - its clone, its original - shows); returns the observations.
+func (w *world) checkAll(i int, after string) []obs {
+	os := make([]obs, len(w.bs))
+	n := len(w.univ)
+	for h := range w.bs {
+		var o obs
+		if kind := core.Try(func() { o = observe(w.bs[h], w.univ, stopFor(i, h)) }); kind != "" {
+			w.fail("panic in an observer", fmt.Sprintf("%s, handle %d, after %s", kind, h, after))
+			o = obs{stop: stopFor(i, h), fwdV: make([]int, n), fwdOk: make([]bool, n), revV: make([]int, n),
+				revOk: make([]bool, n), cf: make([]bool, n), cr: make([]bool, n)}
+		} else if msg := oracle(o, w.refs[h], w.univ); msg != "" {
+			w.fail(msg, fmt.Sprintf("handle %d after op #%d %s", h, i, after))
+		}
+		os[h] = o
+	}
+	return os
+}
+
+func hobs(os []obs, hs ...int) string {
+	var parts []string
+	done := map[int]bool{}
+	for _, h := range hs {
+		if !done[h] {
+			parts = append(parts, "H "+z(h)+" ("+os[h].coq()+")")
+			done[h] = true
 		}
 	}
+	return core.List(parts)
+}
+
+func (w *world) allHandles() []int {
+	hs := make([]int, len(w.bs))
+	for i := range hs {
+		hs[i] = i
+	}
+	return hs
+}
+
+// apply runs operation number i (from 1) on the real Bimap and on the reference;
+// it returns the Coq term of the operation, the handle to look at, and the observations of all handles.
+func (w *world) apply(i int, o Op) (term string, target int, os []obs, ok bool) {
+	if o.H < 0 || o.H >= len(w.bs) {
+		w.fail("bad case", fmt.Sprintf("op #%d names handle %d of %d", i, o.H, len(w.bs)))
+		return "", 0, nil, false
+	}
+	b, r := w.bs[o.H], w.refs[o.H]
+	target = o.H
+	kind := core.Try(func() {
+		switch o.Op {
+		case "Add":
+			ov, okK := r.byKey(o.K)
+			_, okV := r.byValue(o.V)
+			switch {
+			case okK && okV && ov == o.V:
+				w.count("add_same_pair")
+			case okK && okV:
+				w.count("add_evicts_two_pairs")
+				w.both = true
+			case okK:
+				w.count("add_same_key")
+			case okV:
+				w.count("add_same_value")
+			default:
+				w.count("add_fresh")
+			}
+			term = fmt.Sprintf("CAdd %s %s %s", z(o.H), z(o.K), z(o.V))
+			r.add(o.K, o.V)
+			b.Add(o.K, o.V)
+		case "RemoveForward":
+			if _, ok := r.byKey(o.K); ok {
+				w.count("remove_forward_present")
+				w.removedPair = true
+			} else {
+				w.count("remove_forward_absent")
+			}
+			term = fmt.Sprintf("CRemoveForward %s %s", z(o.H), z(o.K))
+			r.removeKey(o.K)
+			b.RemoveForward(o.K)
+		case "RemoveReverse":
+			if _, ok := r.byValue(o.V); ok {
+				w.count("remove_reverse_present")
+				w.removedPair = true
+			} else {
+				w.count("remove_reverse_absent")
+			}
+			term = fmt.Sprintf("CRemoveReverse %s %s", z(o.H), z(o.V))
+			r.removeValue(o.V)
+			b.RemoveReverse(o.V)
+		case "Clear":
+			if len(r.pairs) == 0 {
+				w.count("clear_empty")
+			} else {
+				w.count("clear_nonempty")
+			}
+			term = fmt.Sprintf("CClear %s", z(o.H))
+			r.clear()
+			b.Clear()
+		case "Clone":
+			if len(r.pairs) == 0 {
+				w.count("clone_empty")
+			} else {
+				w.count("clone_nonempty")
+			}
+			term = fmt.Sprintf("CClone %s", z(o.H))
+			w.refs = append(w.refs, r.clone())
+			cl := b.Clone()
+			w.bs = append(w.bs, &cl)
+			target = len(w.bs) - 1
+		default:
+			panic("unknown op " + o.Op)
+		}
+	})
+	after := fmt.Sprintf("%s(h=%d,k=%d,v=%d)", o.Op, o.H, o.K, o.V)
+	if kind != "" {
+		w.fail("panic", fmt.Sprintf("%s in op #%d %s", kind, i, after))
+		if len(w.bs) < len(w.refs) {
+			w.refs = w.refs[:len(w.bs)]
+		}
+	}
+	return term, target, w.checkAll(i, after), true
+}
+
+func exec(c *core.Ctx, cs Case) {
+	c.Begin(cs)
+	failed := false
+	w := newWorld(c, cs.Univ, &failed)
 	var nilB *maps.Bimap[int, int]
 	nilLen := -1
 	if kind := core.Try(func() { nilLen = nilB.Len() }); kind != "" || nilLen != 0 {
-		fail("Len on a nil *Bimap", fmt.Sprintf("= %d, panic %q, want 0", nilLen, kind))
+		w.fail("Len on a nil *Bimap", fmt.Sprintf("= %d, panic %q, want 0", nilLen, kind))
 	}
-	stopFor := func(i, h int) int { return 1 + (i*7+h*3)%4 }
-	// checkAll: direct oracle on every handle; returns the observations
-	checkAll := func(i int, after string) []obs {
-		os := make([]obs, len(bs))
-		for h := range bs {
-			var o obs
-			if kind := core.Try(func() { o = observe(bs[h], univ, stopFor(i, h)) }); kind != "" {
-				fail("panic in an observer", fmt.Sprintf("%s, handle %d, after %s", kind, h, after))
-				o = obs{stop: stopFor(i, h), fwdV: make([]int, len(univ)), fwdOk: make([]bool, len(univ)), revV: make([]int, len(univ)),
-					revOk: make([]bool, len(univ)), cf: make([]bool, len(univ)), cr: make([]bool, len(univ))}
-			} else if msg := oracle(o, refs[h], univ); msg != "" {
-				fail(msg, fmt.Sprintf("handle %d after op #%d %s", h, i, after))
-			}
-			os[h] = o
-		}
-		return os
-	}
-	hobs := func(os []obs, hs ...int) string {
-		var parts []string
-		done := map[int]bool{}
-		for _, h := range hs {
-			if !done[h] {
-				parts = append(parts, "H "+z(h)+" ("+os[h].coq()+")")
-				done[h] = true
-			}
-		}
-		return core.List(parts)
-	}
-	allHandles := func() []int {
-		hs := make([]int, len(bs))
-		for i := range hs {
-			hs[i] = i
-		}
-		return hs
-	}
-	os0 := checkAll(0, "start")
+	os0 := w.checkAll(0, "start")
 	initObs := "[]"
 	if len(cs.Ops) == 0 || cs.Mode == "all" {
 		initObs = hobs(os0, 0)
 	}
-	both, removedPair := false, false
 	steps := make([]string, 0, len(cs.Ops))
 	for i, o := range cs.Ops {
-		if o.H < 0 || o.H >= len(bs) {
-			fail("bad case", fmt.Sprintf("op #%d names handle %d of %d", i+1, o.H, len(bs)))
+		term, target, os, ok := w.apply(i+1, o)
+		if !ok {
 			break
 		}
-		b, r := bs[o.H], refs[o.H]
-		target := o.H
-		var term string
-		kind := core.Try(func() {
-			switch o.Op {
-			case "Add":
-				ov, okK := r.byKey(o.K)
-				ok2, okV := r.byValue(o.V)
-				switch {
-				case okK && okV && ov == o.V:
-					c.Count("add_same_pair")
-				case okK && okV:
-					c.Count("add_evicts_two_pairs")
-					both = true
-				case okK:
-					c.Count("add_same_key")
-				case okV:
-					c.Count("add_same_value")
-				default:
-					c.Count("add_fresh")
-				}
-				_ = ok2
-				term = fmt.Sprintf("CAdd %s %s %s", z(o.H), z(o.K), z(o.V))
-				r.add(o.K, o.V)
-				b.Add(o.K, o.V)
-			case "RemoveForward":
-				if _, ok := r.byKey(o.K); ok {
-					c.Count("remove_forward_present")
-					removedPair = true
-				} else {
-					c.Count("remove_forward_absent")
-				}
-				term = fmt.Sprintf("CRemoveForward %s %s", z(o.H), z(o.K))
-				r.removeKey(o.K)
-				b.RemoveForward(o.K)
-			case "RemoveReverse":
-				if _, ok := r.byValue(o.V); ok {
-					c.Count("remove_reverse_present")
-					removedPair = true
-				} else {
-					c.Count("remove_reverse_absent")
-				}
-				term = fmt.Sprintf("CRemoveReverse %s %s", z(o.H), z(o.V))
-				r.removeValue(o.V)
-				b.RemoveReverse(o.V)
-			case "Clear":
-				if len(r.pairs) == 0 {
-					c.Count("clear_empty")
-				} else {
-					c.Count("clear_nonempty")
-				}
-				term = fmt.Sprintf("CClear %s", z(o.H))
-				r.clear()
-				b.Clear()
-			case "Clone":
-				if len(r.pairs) == 0 {
-					c.Count("clone_empty")
-				} else {
-					c.Count("clone_nonempty")
-				}
-				term = fmt.Sprintf("CClone %s", z(o.H))
-				refs = append(refs, r.clone())
-				cl := b.Clone()
-				bs = append(bs, &cl)
-				target = len(bs) - 1
-			default:
-				panic("unknown op " + o.Op)
-			}
-		})
-		after := fmt.Sprintf("%s(h=%d,k=%d,v=%d)", o.Op, o.H, o.K, o.V)
-		if kind != "" {
-			fail("panic", fmt.Sprintf("%s in op #%d %s", kind, i+1, after))
-			if len(bs) < len(refs) {
-				refs = refs[:len(bs)]
-			}
-		}
-		// every handle is re-read after every operation: an operation on one
-		// handle must not change what any other handle (its clone, its original) shows
-		os := checkAll(i+1, after)
 		switch {
 		case cs.Mode == "all":
-			witness := (i*5 + 1) % len(bs)
+			witness := (i*5 + 1) % len(w.bs)
 			if o.Op == "Clone" {
 				witness = o.H
 			}
 			steps = append(steps, "St ("+term+") "+hobs(os, target, witness))
-		case i == len(cs.Ops)-1:
-			steps = append(steps, "St ("+term+") "+hobs(os, allHandles()...))
+		case i == len(cs.Ops)-1 && cs.Mode == "last":
+			steps = append(steps, "St ("+term+") "+hobs(os, w.allHandles()...))
 		default:
 			steps = append(steps, "St ("+term+") []")
 		}
 	}
-	if both && removedPair {
+	nontrivial := w.both && w.removedPair
+	// mode "fan": every operation of cs.Fan is tried, on its own, after the history cs.Ops
+	fan := make([]string, 0, len(cs.Fan))
+	for _, o := range cs.Fan {
+		w2 := newWorld(c, cs.Univ, &failed)
+		w2.quiet = true
+		for i, p := range cs.Ops {
+			w2.apply(i+1, p)
+		}
+		w2.quiet = false
+		term, _, os, ok := w2.apply(len(cs.Ops)+1, o)
+		if !ok {
+			break
+		}
+		fan = append(fan, "St ("+term+") "+hobs(os, w2.allHandles()...))
+		nontrivial = nontrivial || (w2.both && w2.removedPair)
+		c.Count("fan_histories")
+	}
+	if nontrivial {
 		c.Nontrivial() // an Add that evicted two different pairs, and a removal of an existing pair
 	}
-	c.Emit(fmt.Sprintf("Case %s %s %s [%s]", zList(univ), z(nilLen), initObs, strings.Join(steps, "; ")))
+	c.Emit(fmt.Sprintf("Case %s %s %s [%s] [%s]", zList(cs.Univ), z(nilLen), initObs, strings.Join(steps, "; "), strings.Join(fan, "; ")))
 }
